@@ -128,6 +128,10 @@ def has_warnings(doc):
 
 # --------------------------------------------------------------------------- entries
 
+# a template text that cannot be encoded: the failure arrives when the rendered text is written, not when it is built
+BAD_TEMPLATE = "<xsl:template match=\"odML\"><b>\ud800</b></xsl:template>"
+
+
 def entries():
     """(entry, format label, options)"""
     out = []
@@ -135,14 +139,19 @@ def entries():
         out.append((entry, "XML", {}))
         out.append((entry, "XML", {"local_style": True}))
         out.append((entry, "XML", {"custom_template": "<xsl:template match=\"odML\"><b>x</b></xsl:template>"}))
+        out.append((entry, "XML", {"custom_template": "@unencodable"}))
         out.append((entry, "JSON", {}))
         out.append((entry, "YAML", {}))
         out.append((entry, "RDF", {}))
         for f in RDF_FORMATS + ["no-such-format"]:
             out.append((entry, "RDF", {"rdf_format": f}))
+    # one writer object used for two saves (an application that saves periodically): the second save is judged
+    for fmt in ("XML", "JSON", "YAML", "RDF"):
+        out.append(("ODMLWriter.write_file:writer-used-twice", fmt, {}))
     out.append(("XMLWriter.write_file", "XML", {}))
     out.append(("XMLWriter.write_file", "XML", {"local_style": True}))
     out.append(("XMLWriter.write_file", "XML", {"custom_template": "<xsl:template match=\"odML\"><b>x</b></xsl:template>"}))
+    out.append(("XMLWriter.write_file", "XML", {"custom_template": "@unencodable"}))
     for f in RDF_FORMATS + ["no-such-format"]:
         out.append(("RDFWriter.write_file", "RDF", {"rdf_format": f}))
     return out
@@ -153,10 +162,21 @@ def call_entry(entry, fmt, opts, doc, path):
     from odml.tools.odmlparser import ODMLWriter
     from odml.tools.xmlparser import XMLWriter
     from odml.tools.rdf_converter import RDFWriter
+    opts = {k: (BAD_TEMPLATE if v == "@unencodable" else v) for k, v in opts.items()}
     if entry == "odml.save":
         return odml.save(doc, path, fmt, **opts)
     if entry == "ODMLWriter.write_file":
         return ODMLWriter(fmt).write_file(doc, path, **opts)
+    if entry == "ODMLWriter.write_file:writer-used-twice":
+        writer = ODMLWriter(fmt)
+        side = os.path.join(os.path.dirname(os.path.dirname(path)), "first-save" + os.path.splitext(path)[1])
+        try:
+            with warnings.catch_warnings():
+                warnings.simplefilter("ignore")
+                writer.write_file(doc, side, **opts)
+        except Exception:
+            pass
+        return writer.write_file(doc, path, **opts)
     if entry == "XMLWriter.write_file":
         return XMLWriter(doc).write_file(path, **opts)
     if entry == "RDFWriter.write_file":
@@ -201,6 +221,8 @@ def gen_cases(tier):
                 if docname == "noisy" and (ckind != "natural" or cause != "none"):
                     continue          # the noisy document is there for the invalidity knobs
                 for entry, fmt, opts in ents:
+                    if entry.endswith(":writer-used-twice") and not (ckind == "natural" and cause == "none"):
+                        continue      # an injected fault would be counted over both saves
                     for target in ("absent", "present", "no-extension-absent", "no-extension-present"):
                         if docname == "noisy" and target.startswith("no-extension"):
                             continue
@@ -287,7 +309,7 @@ def _run(case, scratch):
             raised = exc
     execs += 1
     after = listing(work)
-    validating = entry in ("odml.save", "ODMLWriter.write_file")
+    validating = entry in ("odml.save", "ODMLWriter.write_file", "ODMLWriter.write_file:writer-used-twice")
     outcome = "raise:" + type(raised).__name__ if raised is not None else "written"
     if raised is not None:
         if after != before:
@@ -309,7 +331,7 @@ def _run(case, scratch):
         elif not isinstance(raised, ParserException):
             fail("invalid-document-refused-with-another-exception", type(raised).__name__, str(raised)[:200])
     # an unsupported RDF format is one of the failure causes; rdflib's trix serialiser refuses plain graphs
-    may_fail = opts.get("rdf_format") in ("no-such-format", "trix")
+    may_fail = opts.get("rdf_format") in ("no-such-format", "trix") or opts.get("custom_template") == "@unencodable"
     if not invalid and case["cause"] == "none" and not may_fail:
         # nothing can go wrong: the document must be written (and reported when it has warnings)
         if raised is not None:
